@@ -459,6 +459,7 @@ Definition rtable_code (k : rtable) : Z :=
   match k with
   | TAlphaIds => 1 | TGroupEnabled => 2 | TGroupInfo => 3 | THalftone => 4 | TTransfer => 5 | TDisplayInfo => 6
   | TLayerSel => 7 | TGridGuides => 8 | TPrintFlagsInfo => 9 | TResolution => 10 | TPixelAspect => 11 | TPrintScale => 12
+  | TNumeric => 13
   end.
 Definition c_rsrc (a : rpayload) : list Z :=
   match a with
